@@ -455,14 +455,19 @@ impl<T: El> SetWorld<T> {
                 }
                 let elems: Vec<T> = ids.iter().map(|&a| T::mk(a, true)).collect();
                 let objs: Vec<u64> = elems.iter().map(|e| e.obj()).collect();
-                window(|| self.s.extend(elems));
+                if op.k == OpK::ExtendOverlap && n % 2 == 1 {
+                    window(|| self.s.extend(elems.into_iter().filter(|_| true)));
+                } else {
+                    window(|| self.s.extend(elems));
+                }
                 for (&a, &o) in ids.iter().zip(&objs) {
                     self.r.entry(T::norm(a)).or_insert(o);
                     self.note_key(a);
                 }
             }
             OpK::ExtendRef => {
-                let n = op.arg as u32;
+                let n = (op.arg & 0xFF) as u32;
+                elem::EXT_VARIANT.with(|c| c.set((op.arg >> 8) as u8));
                 let ids: Vec<u32> = (k..k + n).collect();
                 if T::set_extend_ref(&mut self.s, &ids) {
                     for &a in &ids {
